@@ -302,6 +302,40 @@ def run(ctx: Ctx):
                     if ".header" in A.dotted(t):
                         ctx.fail("Node._generate_answer:header", ga.loc(x), "_generate_answer modifies a header")
 
+    # ... nor on the way to the wire: the functions every answer passes through
+    ctx.rule("C07-R5b", "the transmit path shared by requests and answers (send_message, "
+                        "route_answer, _record_answer, send_answer, add_out_msg, the writer) stores "
+                        "header fields only where the message is known to be a request", floor=4)
+    ac = model.cls("node.application", "Application")
+    path = [(nc, "send_message"), (nc, "route_answer"), (nc, "_record_answer"), (ac, "send_answer"),
+            (pc_cls(model), "add_out_msg"), (pc_cls(model), "work_write_queue")]
+    for ci, name in path:
+        f = ci.methods.get(name)
+        cons = f"{ci.name}.{name}:header-stores"
+        if f is None:
+            ctx.error(f"{ci.name}.{name} not found", rule="C07-R5b")
+            continue
+        ctx.use(f)
+        ctx.inst(cons, rule="C07-R5b")
+        gf = cfg_of(f)
+        atf = Atomizer(model, f.module, f.cls)
+        for n in gf.nodes:
+            if n.kind != "stmt" or not isinstance(n.ast, (ast.Assign, ast.AugAssign, ast.AnnAssign)):
+                continue
+            for t in A.store_targets(n.ast):
+                d = A.dotted(t)
+                if ".header." not in d:
+                    continue
+                subj = d.split(".header.")[0]
+                facts = must_facts(gf, atf, n)
+                if (f"{subj}.header.is_request", "truthy", None, True) in facts:
+                    continue
+                ctx.fail(cons, gf.loc(n), f"`{ast.unparse(n.ast)[:90]}` in {f.qualname} rewrites a header "
+                         f"field of a message that may be an answer (no `{subj}.header.is_request` "
+                         f"guard): an answer to a request whose identifier is 0 / an answer on its "
+                         f"way out no longer carries the identifiers of the request it answers",
+                         rule="C07-R5b")
+
     # ---------------- R6 second submission fails ----------------------------------------------
     route_answer_discipline(ctx, "C07-R6")
     from .common_node import waiting_table_keys
@@ -310,6 +344,10 @@ def run(ctx: Ctx):
     ctx.include(c20.run, {"C20-R2"}, "C07-R7",
                 "an answer built from a request has the request bit cleared and mirrors its "
                 "identifiers (header flow of Message.to_answer)", floor=5)
+
+
+def pc_cls(model):
+    return model.cls("node.peer", "PeerConnection")
 
 
 def _mentions(e: ast.AST, names: set) -> bool:
